@@ -15,7 +15,7 @@ import (
 	"verif/harness/ev"
 )
 
-const rule = "cases = chains (1..12 steps, encoded size < 500 B by construction) over exactly the allocation-free method set (Str, Strs, Bytes, Hex, Bool(s), every Int/Uint width and slice variant, Float32/64(s), Time(s), Dur(s), TimeDiff, Timestamp, Err/AnErr of a plain error, Dict, Array, Object of a pointer marshaler, RawJSON, Type, Func; nested Dict/Array/Object from the same set) finalised by Msg or Send, on loggers {bare, with context, with timestamp hook, level-filtered, Nop}; all arguments created before the measured function (slices of 0..3 and of 20 elements); global TimeFieldFormat (default, the four UNIX formats, two layouts), DurationFieldInteger/Unit and FloatingPointPrecision varied; run in the JSON and the binary_log build. oracle = testing.AllocsPerRun(100, chain) == 0 and, for filtered loggers, nothing written. non-trivial = chain with >=3 distinct method families or a nested Dict/Array/Object; distinct = FNV-64 of (logger kind, step list)"
+const rule = "cases = chains (1..12 steps, encoded size < 500 B by construction) over exactly the allocation-free method set (Str, Strs, Bytes, Hex, Bool(s), every Int/Uint width and slice variant, Float32/64(s), Time(s), Dur(s), TimeDiff, Timestamp, Err/AnErr of a plain error, Dict, Array, Object of a pointer marshaler, RawJSON, Type, Func; nested Dict/Array/Object from the same set) finalised by Msg or Send, on loggers {bare, with context, with timestamp hook, level-filtered, Nop}; all arguments created before the measured function (slices of 0..3 and of 20 elements; optionally one large string field that puts the event's size in a window below the 64 KiB pooling limit); global TimeFieldFormat (default, the four UNIX formats, two layouts), DurationFieldInteger/Unit and FloatingPointPrecision varied; run in the JSON and the binary_log build. oracle = testing.AllocsPerRun(100, chain) == 0 and, for filtered loggers, nothing written. non-trivial = chain with >=3 distinct method families or a nested Dict/Array/Object; distinct = FNV-64 of (logger kind, step list)"
 
 var rec = ev.New("C07", rule)
 
@@ -44,7 +44,12 @@ type Case struct {
 	DurInt    bool   `json:"dur_int,omitempty"`
 	DurUnit   int64  `json:"dur_unit,omitempty"`
 	FloatPrec *int   `json:"float_prec,omitempty"`
+	// Big: one more top-level Str field of this many bytes, so that the event's encoded size lands
+	// in a chosen window below the 64 KiB pooling limit (at most one per chain: two would exceed it)
+	Big int `json:"big,omitempty"`
 }
+
+var bigPayload = strings.Repeat("0123456789abcdef", 4096) // 64 KiB of plain text
 
 // values longer than 32 bytes that need escaping (a conversion to string/[]byte of such a value
 // cannot use the compiler's small stack buffer)
@@ -433,6 +438,9 @@ func run(c *Case) (string, bool) {
 		for _, s := range steps {
 			e = s(e)
 		}
+		if c.Big > 0 {
+			e = e.Str("big", bigPayload[:c.Big])
+		}
 		switch fin {
 		case "send":
 			e.Send()
@@ -514,6 +522,10 @@ func TestRapidChains(t *testing.T) {
 			Fin: rapid.SampledFrom([]string{"msg", "send", "msgempty"}).Draw(rt, "fin"), Build: buildName()}
 		c.Steps = genSteps(rt, 0, 8, "s")
 		c.FailFirst = rapid.IntRange(0, 4).Draw(rt, "failfirst") == 0
+		if rapid.IntRange(0, 5).Draw(rt, "big") == 0 {
+			// sizes around the buffer growth steps up to just below the pooling limit; the chain itself stays small
+			c.Big = rapid.SampledFrom([]int{600, 4000, 30000, 33000, 57400, 60000, 61000}).Draw(rt, "bigsize")
+		}
 		if rapid.Bool().Draw(rt, "settings") {
 			c.TimeFmt = rapid.SampledFrom(timeFmts).Draw(rt, "timefmt")
 			c.DurInt = rapid.Bool().Draw(rt, "durint")
@@ -556,6 +568,16 @@ func TestEachFamily(t *testing.T) {
 				if msg, _ := run(c); msg != "" {
 					fail(t, "family", c, m+": "+msg)
 				}
+			}
+		}
+	}
+	// events whose buffer has grown to each capacity class up to the pooling limit (64 KiB): still pooled, still free
+	for _, lg := range []string{"bare", "ctx", "ts", "filtered"} {
+		for _, big := range []int{500, 1100, 9000, 33000, 41000, 49500, 57400, 60000, 63000} {
+			c := &Case{Logger: lg, Fin: "msg", Build: buildName(), Steps: []Step{{M: "int", V: 3}}, Big: big}
+			n++
+			if msg, _ := run(c); msg != "" {
+				fail(t, "family", c, fmt.Sprintf("with a %d-byte field: %s", big, msg))
 			}
 		}
 	}
